@@ -16,7 +16,8 @@ for i, line in enumerate(lines):
         continue
     cols = line.split("|")
     cov = e["coverage"]
-    txt = f" {cov['evaluations']:,} cases, {cov['distinct_nontrivial']:,} distinct non-trivial / {e['wall_s']:.0f} s ".replace(",", " ")
+    sp = lambda n: f"{n:,}".replace(",", " ")  # noqa: E731
+    txt = f" {sp(cov['evaluations'])} cases, {sp(cov['distinct_nontrivial'])} distinct non-trivial / {e['wall_s']:.0f} s "
     cols[4] = txt
     lines[i] = "|".join(cols)
 open(p, "w").write("\n".join(lines))
